@@ -73,8 +73,15 @@ func listDir(dir string) map[string]int64 {
 	return out
 }
 
+// c16DirPattern: store roots whose own path contains the store's file extensions (".dat",
+// ".tmp") or other awkward substrings — artifact paths must be derived from the file name, not
+// from the first match anywhere in the path.
+func c16DirPattern(r *core.Rand) string {
+	return core.Pick(r, []string{"d", "d", "index.data-", "x.dat.d-", "a.tmp.b-", "bloom-.dat-", "sp ace-", "d.dat"})
+}
+
 func c16Sequence(rc *RunCtx, i, s int, r *core.Rand) {
-	dir, err := os.MkdirTemp(scratchDir("c16"), "d")
+	dir, err := os.MkdirTemp(scratchDir("c16"), c16DirPattern(r))
 	if err != nil {
 		rc.Res.Inconc("mkdtemp: " + err.Error())
 		return
@@ -336,7 +343,7 @@ func keysOf(m map[string]bool) []string {
 
 // c16Concurrent: goroutine per writer; final state and per-pointer content.
 func c16Concurrent(rc *RunCtx, i, s int, r *core.Rand) {
-	dir, err := os.MkdirTemp(scratchDir("c16"), "c")
+	dir, err := os.MkdirTemp(scratchDir("c16"), c16DirPattern(r))
 	if err != nil {
 		rc.Res.Inconc("mkdtemp: " + err.Error())
 		return
